@@ -28,6 +28,9 @@ def run(ctx):
             for fid, desc in fails:
                 ctx.violation('setptr:' + fid.split('.')[-1], desc + ' (CBMC trace over the real alloc.c is the replay)', [log, h])
     ctx.assume('setptr harness maps only the IMB_MGR header (8-slot ring via the one-line patched header copy); set_road_block() is a recorder; any other access outside the header is reported as out-of-bounds')
+    # (i-b) the per-architecture dispatchers hand reset_mgrs through unchanged to whichever variant the CPU selects
+    for w, a in ((5, 'sse'), (6, 'avx2'), (7, 'avx512')):
+        simple_cbmc(ctx, 'initgate.c', 'init_mb_mgr_%s_internal(state, r) on an arbitrary CPU: the selected variant initialiser receives exactly r (re-attach passes 0: no lane is reset)' % a, 30, ['-DWHICH=%d' % w])
     # (ii) re-binding function pointers without reset leaves every lane byte and the ring untouched
     archs = ['sse_t1'] if ctx.quick() else ['sse_t1', 'avx2_t1', 'avx512_t1', 'avx512_t2']
     reset.run_reset(ctx, archs, noreset=True)
